@@ -10,4 +10,6 @@ for d in c*/; do
   d=${d%/}
   go test -c -tags verif -vet=off -o ../.build/$d.test ./$d >/dev/null
 done
+# the 32-bit build of the C20 check (a failure here only disables that sub-check)
+GOARCH=386 CGO_ENABLED=0 go test -c -tags verif -vet=off -o ../.build/c20-386.test ./c20 >/dev/null 2>&1 || echo "note: GOARCH=386 build of c20 not available"
 echo setup ok
